@@ -8,6 +8,7 @@
 package main
 
 import (
+	"os"
 	"fmt"
 	"net/netip"
 	"sort"
@@ -201,6 +202,94 @@ func scenarioD(name string, n int, fixedTimes []time.Duration, bcastPort uint16,
 	return e1.Scenario{Name: name, Bound: bound, Body: body, Check: check}
 }
 
+// twoDiscoveries: two GetDevices calls overlap on one client (ephemeral bind port, so neither waits
+// for the other). The first gets two replies early in its window; the second starts at 0.3 T and
+// gets `burst` replies from as many other controllers in the very instant the first call's window
+// ends. Each call must return exactly the controllers that answered ITS request, in order.
+func twoDiscoveries(burst int, bound int) e1.Scenario {
+	var gotA, gotB []map[string]any
+	var errA, errB error
+	mk := func(serial uint32, k int) []byte {
+		vals := ops.BaselineReply(devOp)
+		vals["IpAddress"] = [4]byte{10, byte(serial >> 16), byte(serial >> 8), byte(serial)}
+		vals["Version"] = uint16(0x0600 + k%200)
+		return spec.EncodeReply(devOp, serial, vals)
+	}
+	body := func() {
+		gotA, gotB, errA, errB = nil, nil, nil, nil
+		calls := 0
+		ctrl := &farm.Controller{Addr: "192.168.1.100:60000"}
+		ctrl.Respond = func(proto string, req []byte, from string) []farm.Reply {
+			calls++
+			out := []farm.Reply{}
+			if calls == 1 {
+				for k := 0; k < 2; k++ {
+					out = append(out, farm.Reply{Delay: time.Duration(k+1) * T / 10, Data: mk(uint32(101+k), k)})
+				}
+				return out
+			}
+			for k := 0; k < burst; k++ {
+				out = append(out, farm.Reply{Delay: 7 * T / 10, Data: mk(uint32(2001+k), k)}) // 0.3 T + 0.7 T = the first call's deadline
+			}
+			return out
+		}
+		vs.Net().Env = &farm.Farm{Controllers: []*farm.Controller{ctrl}}
+		u := uhppote.NewUHPPOTE(types.BindAddr{}, types.BroadcastAddr{}, types.ListenAddr{}, T, nil, false)
+		var wg vs.WaitGroup
+		wg.Add(1)
+		vs.GoNamed("second-discovery", func() {
+			defer wg.Done()
+			vs.Sleep(3 * T / 10)
+			gotB, errB = ops.InvokeGetDevices(u)
+		})
+		gotA, errA = ops.InvokeGetDevices(u)
+		wg.Wait()
+	}
+	check := func(e *vs.Exec) (string, []e1.Viol) {
+		viols := e1.Generic(e)
+		for _, r := range e.Races {
+			viols = append(viols, e1.Viol{Key: "race", What: "data race: " + r})
+		}
+		if e.Abort != "" {
+			return e.Abort, viols
+		}
+		judge := func(name string, got []map[string]any, err error, first uint32, n int, optionalTail bool) {
+			if err != nil {
+				viols = append(viols, e1.Viol{Key: "overlapping/" + name + "/failed", What: fmt.Sprint(err)})
+				return
+			}
+			if len(got) != n && !(optionalTail && len(got) <= n) {
+				viols = append(viols, e1.Viol{Key: "overlapping/" + name + "/entry-count", What: fmt.Sprintf("%d entries, %d controllers answered this call", len(got), n)})
+				return
+			}
+			for i, g := range got {
+				ex := spec.ExpectReply(devOp, first+uint32(i), nil, mk(first+uint32(i), i))
+				ip := ex.Fields["IpAddress"].([4]byte)
+				ex.Fields["Address"] = netip.AddrPortFrom(netip.AddrFrom4(ip), 60000)
+				ex.Fields["Name"] = ""
+				if v := spec.Judge(ex, spec.Observed{Fields: g}); v.Class != "" {
+					viols = append(viols, e1.Viol{Key: "overlapping/" + name + "/wrong-entry", What: fmt.Sprintf("entry %d is not the decoding of reply %d to this call (another discovery was running on the same client): %s", i, i, v.Detail)})
+					return
+				}
+			}
+		}
+		judge("first", gotA, errA, 101, 2, false)
+		judge("second", gotB, errB, 2001, burst, false)
+		if open := vs.Net().OpenSockets(); len(open) > 0 {
+			viols = append(viols, e1.Viol{Key: "socket-leak", What: fmt.Sprint(open)})
+		}
+		if os.Getenv("C11_DEBUG") != "" {
+			ser := []any{}
+			for _, g := range gotA {
+				ser = append(ser, g["SerialNumber"])
+			}
+			return fmt.Sprintf("overlapping discoveries %d+%d A=%v", len(gotA), len(gotB), ser), viols
+		}
+		return fmt.Sprintf("overlapping discoveries %d+%d", len(gotA), len(gotB)), viols
+	}
+	return e1.Scenario{Name: fmt.Sprintf("two-discoveries/burst=%d", burst), Bound: bound, Body: body, Check: check, Opt: vs.Options{Horizon: 8000}}
+}
+
 // driver-level complement: one reply swept field by field through the GetDevices result mapping
 func mappingSweep(r *vk.Run) {
 	var n int64
@@ -316,6 +405,15 @@ func main() {
 			scenarios = append(scenarios, scenario(fmt.Sprintf("discovery/n=4/times=0.1T,0.5T,0.5T,T-e/bcast=%d", port), 4, []time.Duration{T / 10, T / 2, T / 2, T - eps}, port, 1))
 		}
 	}
+	// overlapping discoveries on one client, the second one with more replies than any plausible
+	// buffer pool holds
+	for _, burst := range []int{3, 40} {
+		sc := twoDiscoveries(burst, 1)
+		if burst > 10 {
+			sc.Shards = 4
+		}
+		scenarios = append(scenarios, sc)
+	}
 	if r.Thorough() {
 		e1.PerScenario = 6 * time.Minute
 	}
@@ -326,7 +424,7 @@ func main() {
 	if r.Worker == "" && r.Replay == "" {
 		vs.Run(nil, nil, vs.Options{}, func() { mappingSweep(r) })
 	}
-	r.Rule("every sequence of 0..2 datagrams over 12 classes (valid A/B, duplicate, 6 and 63 bytes, 65 and 1100 bytes with a well-formed 64-byte prefix, wrong protocol id, wrong function code, function code 0xff, non-BCD and calendar-invalid date), every 2-datagram sequence also through a client built with debug = true, x 5 arrival times (0.1T, 0.5T, T-e, T, T+e), every 3-datagram class sequence at two fixed time patterns (thorough: also every 3-datagram sequence at every arrival-time combination, simultaneous arrivals and 4 datagrams at two time patterns), broadcast address unset / port 60005, each under all interleavings of the reader goroutine and the sleeping caller within the preemption bound; plus a driver-level sweep of one reply through the result mapping (every byte value of address/mask/gateway/MAC/version/serial, all 65536 version, year and month-day byte pairs) x {unnamed + default port, named + port 60005}. distinct = distinct (entries, datagrams) labels")
+	r.Rule("every sequence of 0..2 datagrams over 12 classes (valid A/B, duplicate, 6 and 63 bytes, 65 and 1100 bytes with a well-formed 64-byte prefix, wrong protocol id, wrong function code, function code 0xff, non-BCD and calendar-invalid date), every 2-datagram sequence also through a client built with debug = true, x 5 arrival times (0.1T, 0.5T, T-e, T, T+e), every 3-datagram class sequence at two fixed time patterns (thorough: also every 3-datagram sequence at every arrival-time combination, simultaneous arrivals and 4 datagrams at two time patterns), broadcast address unset / port 60005, each under all interleavings of the reader goroutine and the sleeping caller within the preemption bound; two overlapping GetDevices calls on one client, the second receiving 3 / 40 replies in the instant the first one's window ends (<= 1 preemption); plus a driver-level sweep of one reply through the result mapping (every byte value of address/mask/gateway/MAC/version/serial, all 65536 version, year and month-day byte pairs) x {unnamed + default port, named + port 60005}. distinct = distinct (entries, datagrams) labels")
 	r.Assume("a reply with a calendar-invalid BCD date may be dropped or reported with the zero date (the property lists only non-BCD dates as malformed)")
 	r.Finish()
 }
